@@ -8,12 +8,18 @@
 (* against these (MCArgEval), and every generated test input carries its abstract line.  *)
 EXTENDS ArgEval
 
+\* A use of a sub-group argument carries one more field: sub = the abstract line (over the sub-group's configuration) given
+\* behind it.  A use of a command-mode argument has the whole remaining text as its single value and must be the last use.
 UsesIdx(line, a) == {k \in 1..Len(line) : line[k].a = a}
 Used(line, a) == UsesIdx(line, a) # {}
 RECURSIVE AllVals(_, _, _)
 AllVals(line, a, k) == IF k > Len(line) THEN <<>>
                        ELSE (IF line[k].a = a THEN line[k].vals ELSE <<>>) \o AllVals(line, a, k + 1)
 LastUse(line, a) == CHOOSE k \in UsesIdx(line, a) : \A j \in UsesIdx(line, a) : j <= k
+\* everything given to sub-group argument a, over all the times it was entered
+RECURSIVE SubLine(_, _, _)
+SubLine(line, a, k) == IF k > Len(line) THEN <<>>
+                       ELSE (IF line[k].a = a THEN line[k].sub ELSE <<>>) \o SubLine(line, a, k + 1)
 
 \* ---- one value: convertible and accepted by all checks
 ValueOK(arg, raw) == ConvElem(arg, raw).ok
@@ -96,10 +102,12 @@ ValArgOpen(cfg, line, a) ==
                                 /\ \E j \in ValUses(cfg, line, cfg.args[a].dst) : j < k
                                 /\ ValBefore(cfg, line, cfg.args[a].dst, k) = cfg.args[cfg.args[a].dst].init
 
+RECURSIVE Intended(_, _)
 Intended(cfg, line) ==
    [a \in 1..NArgs(cfg) |->
       LET arg == cfg.args[a] IN
-      IF arg.kind = "valint" THEN ValBefore(cfg, line, arg.dst, Len(line) + 1)
+      IF IsSub(arg) THEN Intended(arg.sub, SubLine(line, a, 1))
+      ELSE IF arg.kind = "valint" THEN ValBefore(cfg, line, arg.dst, Len(line) + 1)
       ELSE IF ~Used(line, a) THEN arg.init
       ELSE IF arg.kind = "flag" THEN ~arg.init
       ELSE IF arg.kind = "level" THEN LevelAfter(arg, line, a, Len(line))
@@ -108,24 +116,34 @@ Intended(cfg, line) ==
            IF arg.kind = "optint" THEN <<v>> ELSE v]
 
 \* second variable of pair arguments: its fixed value once the argument was used
+RECURSIVE IntendedAux(_, _)
 IntendedAux(cfg, line) ==
-   [a \in 1..NArgs(cfg) |-> IF ~PairOn(cfg.args[a]) THEN 0 ELSE IF Used(line, a) THEN cfg.args[a].pair.val ELSE cfg.args[a].pair.init]
+   [a \in 1..NArgs(cfg) |-> IF IsSub(cfg.args[a]) THEN IntendedAux(cfg.args[a].sub, SubLine(line, a, 1))
+                            ELSE IF ~PairOn(cfg.args[a]) THEN 0 ELSE IF Used(line, a) THEN cfg.args[a].pair.val ELSE cfg.args[a].pair.init]
 
 \* ---- validity
-CardOK(arg, nuses, nvals) ==
+\* endr: the rules that can only be judged at the end of the command line (mandatory, lower cardinality bounds, requirements,
+\* all-of / one-of / differ / disjoint) are included.  Without them: the rules that are enforced while the words are read.
+CardOK(arg, nuses, nvals, endr) ==
    LET n == IF IsContainer(arg.kind) THEN nvals ELSE nuses
        card == EffCard(arg) IN
    CASE card.t = "none"  -> TRUE
      [] card.t = "max"   -> n <= card.a
-     [] card.t = "exact" -> n = card.a
-     [] card.t = "range" -> n >= card.a /\ n <= card.b
+     [] card.t = "exact" -> n <= card.a /\ (endr => n = card.a)
+     [] card.t = "range" -> (endr => n >= card.a) /\ n <= card.b
      [] OTHER -> TRUE
 
-ArgValid(cfg, line, a) ==
+RECURSIVE ValidX(_, _, _)
+ArgValid(cfg, line, a, endr) ==
    LET arg == cfg.args[a]
        vs == AllVals(line, a, 1) IN
-   IF ~Used(line, a) THEN ~arg.mand
-   ELSE IF arg.kind = "level" THEN ~arg.depr /\ LevelValid(arg, line, a) /\ CardOK(arg, Cardinality(UsesIdx(line, a)), Len(vs))
+   IF ~Used(line, a) THEN endr => ~arg.mand
+   ELSE IF arg.kind = "level" THEN ~arg.depr /\ LevelValid(arg, line, a) /\ CardOK(arg, Cardinality(UsesIdx(line, a)), Len(vs), endr)
+   \* sub-group: used like a flag; what was given inside it obeys the rules that its handler enforces while reading
+   ELSE IF IsSub(arg) THEN /\ ~arg.depr
+                           /\ \A k \in UsesIdx(line, a) : Len(line[k].vals) = 0
+                           /\ CardOK(arg, Cardinality(UsesIdx(line, a)), 0, endr)
+                           /\ ValidX(arg.sub, SubLine(line, a, 1), FALSE)
    ELSE /\ ~arg.depr
         /\ \A k \in UsesIdx(line, a) :
               IF arg.kind \in {"flag", "valint"} THEN Len(line[k].vals) = 0
@@ -136,7 +154,7 @@ ArgValid(cfg, line, a) ==
                                   ELSE ValueOK(arg, vs[k])
         /\ (arg.kind = "valint" => ValArgOK(cfg, line, a))
         /\ (arg.kind \in GrowBitKinds => \A k \in 1..Len(vs) : ValueOf(arg, vs[k]) >= 0)
-        /\ CardOK(arg, Cardinality(UsesIdx(line, a)), Len(vs))
+        /\ CardOK(arg, Cardinality(UsesIdx(line, a)), Len(vs), endr)
         /\ (IsArr(arg.kind) => StoredCount(arg, vs) <= 3)
         /\ (arg.kind = "bits8" => \A k \in 1..Len(vs) : ValueOf(arg, vs[k]) >= 0 /\ ValueOf(arg, vs[k]) < 8)
         /\ (IsContainer(arg.kind) /\ arg.kind # "mapsi" /\ arg.uniq = "error" =>
@@ -145,21 +163,21 @@ ArgValid(cfg, line, a) ==
                ~MapHasDup(vs, 1, IF arg.clear THEN {} ELSE {arg.init[j][1] : j \in 1..Len(arg.init)}))
 
 \* requires/excludes in their documented, order-sensitive sense
-ConstraintsOK(cfg, line) ==
+ConstraintsOK(cfg, line, endr) ==
    \A k \in 1..Len(line) :
       LET arg == cfg.args[line[k].a] IN
-      /\ \A j \in SeqToSet(arg.req) : \E m \in (k+1)..Len(line) : line[m].a = j
+      /\ endr => \A j \in SeqToSet(arg.req) : \E m \in (k+1)..Len(line) : line[m].a = j
       /\ \A j \in SeqToSet(arg.exc) : \A m \in (k+1)..Len(line) : line[m].a # j
 
-HConsOK(cfg, line, h) ==
+HConsOK(cfg, line, h, endr) ==
    LET S == SeqToSet(h.args)
        usedS == {a \in S : Used(line, a)}
        D == Intended(cfg, line) IN
-   CASE h.k = "allOf"  -> usedS = S
+   CASE h.k = "allOf"  -> endr => usedS = S
      [] h.k = "anyOf"  -> Cardinality(usedS) <= 1
-     [] h.k = "oneOf"  -> Cardinality(usedS) = 1
-     [] h.k = "differ" -> \A a, b \in usedS : a # b => D[a] # D[b]
-     [] h.k = "disjoint" -> \A a, b \in S : a # b => (SeqToSet(D[a]) \cap SeqToSet(D[b])) = {}
+     [] h.k = "oneOf"  -> Cardinality(usedS) <= 1 /\ (endr => Cardinality(usedS) = 1)
+     [] h.k = "differ" -> endr => \A a, b \in usedS : a # b => D[a] # D[b]
+     [] h.k = "disjoint" -> endr => \A a, b \in S : a # b => (SeqToSet(D[a]) \cap SeqToSet(D[b])) = {}
      [] OTHER -> TRUE
 \* cases the documentation leaves open: all-of with none of its arguments used; an any-of/one-of
 \* argument used more than once
@@ -167,13 +185,21 @@ HConsOpen(cfg, line, h) ==
    LET S == SeqToSet(h.args) IN
    \/ h.k = "allOf" /\ \A a \in S : ~Used(line, a)
    \/ h.k \in {"anyOf", "oneOf"} /\ \E a \in S : Cardinality(UsesIdx(line, a)) > 1
+ValidX(cfg, line, endr) ==
+   /\ \A a \in 1..NArgs(cfg) : ArgValid(cfg, line, a, endr)
+   /\ ConstraintsOK(cfg, line, endr)
+   /\ \A k \in 1..Len(cfg.hcons) : HConsOK(cfg, line, cfg.hcons[k], endr)
+Valid(cfg, line) == ValidX(cfg, line, TRUE)
+
+\* a command-mode argument given without anything behind its key: empty value or missing value?  not documented
+CmdOpen(cfg, line) == \E k \in 1..Len(line) : IsCmd(cfg.args[line[k].a]) /\ Len(line[k].vals) = 0
+RECURSIVE Open(_, _)
 Open(cfg, line) == \/ \E k \in 1..Len(cfg.hcons) : HConsOpen(cfg, line, cfg.hcons[k])
                    \/ \E a \in 1..NArgs(cfg) : cfg.args[a].kind = "valint" /\ ValArgOpen(cfg, line, a)
-
-Valid(cfg, line) ==
-   /\ \A a \in 1..NArgs(cfg) : ArgValid(cfg, line, a)
-   /\ ConstraintsOK(cfg, line)
-   /\ \A k \in 1..Len(cfg.hcons) : HConsOK(cfg, line, cfg.hcons[k])
+                   \/ CmdOpen(cfg, line)
+                   \* sub-groups: the end-of-line rules of the sub-group's handler (nobody says when they are checked) are not met
+                   \/ \E a \in 1..NArgs(cfg) : IsSub(cfg.args[a]) /\ LET L == SubLine(line, a, 1) IN
+                         Open(cfg.args[a].sub, L) \/ (ValidX(cfg.args[a].sub, L, FALSE) /\ ~ValidX(cfg.args[a].sub, L, TRUE))
 
 \* The operational evaluation agrees with the declarative meaning for a spelling `words` of `line`
 \* (C01/C03: valid lines are accepted with the intended values; C02: invalid ones are rejected).
@@ -192,13 +218,47 @@ Abbrevs(cfg, a) ==
             /\ ExactLong(cfg, p) = {}
             /\ PrefixLong(cfg, p) = {a}}
 NextWordOK(v) == ~(Len(v) > 0 /\ v[1] = Dash) /\ ~(Len(v) = 1 /\ v[1] \in CtrlChars)
+\* the words of a command-mode value: the text cut at its blanks (texts with leading, trailing or double blanks have no spelling)
+CmdWords(v) == SplitAt(v, 32)
+CmdTextOK(v) == Len(v) > 0 /\ RestOfLine(CmdWords(v), 1) = v
+IsShortFlagWord(cfg, w) == Len(w) >= 2 /\ w[1] = Dash /\ w[2] # Dash
+                           /\ \A k \in 2..Len(w) : \E a \in 1..NArgs(cfg) : cfg.args[a].s = w[k] /\ cfg.args[a].vm \in {"none", "opt"}
+\* (the key of a command-mode argument must stay a word of its own)
+IsShortKeyWord(cfg, w) == Len(w) >= 2 /\ w[1] = Dash /\ w[2] # Dash /\ \E a \in 1..NArgs(cfg) : cfg.args[a].s = w[2] /\ ~IsCmd(cfg.args[a])
+\* grouping of adjacent short keys behind one dash: "-a" "-b" -> "-ab", "-a" "-n5"/"-n" -> "-an5"/"-an"
+Merges(cfg, ws) ==
+   {SubSeq(ws, 1, k - 1) \o <<ws[k] \o Tail2(ws[k+1], 2)>> \o Tail2(ws, k + 2) :
+       k \in {j \in 1..(Len(ws) - 1) : IsShortFlagWord(cfg, ws[j]) /\ IsShortKeyWord(cfg, ws[j+1])}}
+\* is the first word of a spelling taken by the handler with configuration sc (a sub-group that was entered before)?
+\* A key it knows (exactly, abbreviated or ambiguously); a free value if it has a positional argument or `freeval`
+\* (its last argument still takes values)
+TakenBySub(sc, w, freeval) ==
+   IF Len(w) >= 2 /\ w[1] = Dash /\ w[2] # Dash THEN LookupShort(sc, w[2]) # 0
+   ELSE IF Len(w) > 2 /\ w[1] = Dash /\ w[2] = Dash THEN
+        LET name == Tail2(w, 3)
+            e == PosOf(name, EqSign) IN
+        LookupLong(sc, IF e = 0 THEN name ELSE SubSeq(name, 1, e - 1)) # 0
+   ELSE freeval \/ PosArg(sc) # 0
 \* surface forms of one use: set of word sequences
+RECURSIVE SpellFrom(_, _, _)
+RECURSIVE Spellings(_, _)
 SpellUse(cfg, u) ==
    LET arg == cfg.args[u.a]
        shortK == IF arg.s # 0 THEN {<<Dash, arg.s>>} ELSE {}
        longK == IF Len(arg.l) > 0 THEN {<<Dash, Dash>> \o w : w \in {arg.l} \cup Abbrevs(cfg, u.a)} ELSE {}
    IN
-   IF arg.pos THEN LET pv == IF IsContainer(arg.kind) THEN JoinSep(u.vals, arg.sep) ELSE u.vals[1] IN
+   IF IsSub(arg) THEN
+        \* the key, then the sub-group's line in any of its spellings; the short key may lead a group that goes on with
+        \* short keys of the sub-group ("-oc mycache")
+        LET S == Spellings(arg.sub, u.sub) IN
+        {<<k>> \o t : k \in shortK \cup longK, t \in S}
+        \cup {<<k \o Tail2(t[1], 2)>> \o Tail2(t, 2) : k \in shortK, t \in {x \in S : Len(x) > 0 /\ IsShortKeyWord(arg.sub, x[1])}}
+   ELSE IF IsCmd(arg) THEN
+        IF Len(u.vals) = 0 THEN (IF arg.pos THEN {} ELSE {<<k>> : k \in shortK \cup longK})
+        ELSE IF ~CmdTextOK(u.vals[1]) THEN {}
+        ELSE IF arg.pos THEN (IF NextWordOK(CmdWords(u.vals[1])[1]) THEN {CmdWords(u.vals[1])} ELSE {})
+        ELSE {<<k>> \o CmdWords(u.vals[1]) : k \in shortK \cup longK}
+   ELSE IF arg.pos THEN LET pv == IF IsContainer(arg.kind) THEN JoinSep(u.vals, arg.sep) ELSE u.vals[1] IN
                    IF NextWordOK(pv) THEN {<<pv>>} ELSE {}
    ELSE IF Len(u.vals) = 0 THEN {<<k>> : k \in shortK \cup longK}
    ELSE LET v == IF IsContainer(arg.kind) THEN JoinSep(u.vals, arg.sep) ELSE u.vals[1] IN
@@ -212,21 +272,30 @@ PosPlaceOK(cfg, line, k) ==
    ~cfg.args[line[k].a].pos \/ k = 1
    \/ LET prev == cfg.args[line[k-1].a] IN
       ~prev.multi /\ ~(prev.vm = "opt" /\ Len(line[k-1].vals) = 0)
-RECURSIVE SpellFrom(_, _, _)
+\* nothing can follow a command-mode argument (it would be part of its value)
+CmdPlaceOK(cfg, line, k) == k = 1 \/ ~IsCmd(cfg.args[line[k-1].a])
+\* behind a sub-group the first word of the next use must be one the sub-group's handler does not take
+AfterSubOK(cfg, line, k, ws) ==
+   k = 1 \/ ~IsSub(cfg.args[line[k-1].a]) \/ Len(ws) = 0
+   \/ LET sc == cfg.args[line[k-1].a].sub
+          L == line[k-1].sub
+          lastu == L[Len(L)]
+          freeval == Len(L) > 0 /\ (sc.args[lastu.a].multi \/ (sc.args[lastu.a].vm = "opt" /\ Len(lastu.vals) = 0)) IN
+      ~TakenBySub(sc, ws[1], freeval)
 SpellFrom(cfg, line, k) ==
    IF k > Len(line) THEN {<<>>}
-   ELSE IF ~PosPlaceOK(cfg, line, k) THEN {}
-   ELSE {h \o t : h \in SpellUse(cfg, line[k]), t \in SpellFrom(cfg, line, k + 1)}
-\* grouping of adjacent short keys behind one dash: "-a" "-b" -> "-ab", "-a" "-n5"/"-n" -> "-an5"/"-an"
-IsShortFlagWord(cfg, w) == Len(w) >= 2 /\ w[1] = Dash /\ w[2] # Dash
-                           /\ \A k \in 2..Len(w) : \E a \in 1..NArgs(cfg) : cfg.args[a].s = w[k] /\ cfg.args[a].vm \in {"none", "opt"}
-IsShortKeyWord(cfg, w) == Len(w) >= 2 /\ w[1] = Dash /\ w[2] # Dash /\ \E a \in 1..NArgs(cfg) : cfg.args[a].s = w[2]
-Merges(cfg, ws) ==
-   {SubSeq(ws, 1, k - 1) \o <<ws[k] \o Tail2(ws[k+1], 2)>> \o Tail2(ws, k + 2) :
-       k \in {j \in 1..(Len(ws) - 1) : IsShortFlagWord(cfg, ws[j]) /\ IsShortKeyWord(cfg, ws[j+1])}}
+   ELSE IF ~PosPlaceOK(cfg, line, k) \/ ~CmdPlaceOK(cfg, line, k) THEN {}
+   ELSE {h \o t : h \in {x \in SpellUse(cfg, line[k]) : AfterSubOK(cfg, line, k, x)}, t \in SpellFrom(cfg, line, k + 1)}
+\* a command-mode use (the last one) is spelled as it is: what stands behind it is text, not keys that could be grouped
 Spellings(cfg, line) ==
-   LET base == SpellFrom(cfg, line, 1)
+   LET n == Len(line)
+       hasCmd == n > 0 /\ IsCmd(cfg.args[line[n].a])
+       head == IF hasCmd THEN SubSeq(line, 1, n - 1) ELSE line
+       base == SpellFrom(cfg, head, 1)
        m1 == UNION {Merges(cfg, ws) : ws \in base}
-       m2 == UNION {Merges(cfg, ws) : ws \in m1} IN
-   base \cup m1 \cup m2
+       m2 == UNION {Merges(cfg, ws) : ws \in m1}
+       H == base \cup m1 \cup m2 IN
+   IF ~hasCmd THEN H
+   ELSE IF ~PosPlaceOK(cfg, line, n) \/ ~CmdPlaceOK(cfg, line, n) THEN {}
+   ELSE {h \o c : h \in H, c \in {x \in SpellUse(cfg, line[n]) : AfterSubOK(cfg, line, n, x)}}
 =============================================================================
